@@ -350,7 +350,7 @@ func run(r *eng.Runner) {
 						if o.nested {
 							nn := fmt.Sprintf("n%d", lv)
 							d.nested = nn
-							L.defs[nn] = &def{loopI: shape == "for"}
+							L.defs[nn] = &def{loopI: shape == "for", super: lv == 2} // a brand-new block using Super: nothing below it
 							nk = append(nk, nn)
 						}
 						L.defs[n] = d
@@ -369,12 +369,25 @@ func run(r *eng.Runner) {
 			}
 			loop(0)
 		}
-		base := &level{defs: map[string]*def{"a": {loopI: shape == "for"}, "b": {}}}
-		known := []string{"a", "b"}
-		if shape == "nested" {
-			known = append(known, "o")
+		// the base's own definitions may use block.Super as well (empty at the bottom)
+		for baseSuper := 0; baseSuper < 4; baseSuper++ {
+			if baseSuper > 0 && r.Quick() && shape != "top" && shape != "for" {
+				continue
+			}
+			base := &level{defs: map[string]*def{"a": {loopI: shape == "for", super: baseSuper&1 != 0}, "b": {super: baseSuper&2 != 0}}}
+			known := []string{"a", "b"}
+			if shape == "nested" {
+				known = append(known, "o")
+			}
+			if baseSuper > 0 {
+				save := maxChildren
+				maxChildren = 2
+				rec(&chain{shape: shape, levels: []*level{base}}, known)
+				maxChildren = save
+				continue
+			}
+			rec(&chain{shape: shape, levels: []*level{base}}, known)
 		}
-		rec(&chain{shape: shape, levels: []*level{base}}, known)
 	}
 
 	r.Group("invalid", "c10.bad", "invalid shapes: second extends, extends inside a block / if / for, duplicate block names (same level, nested, in a child), extends of a missing file, extends with a non-string argument")
